@@ -1,10 +1,12 @@
 mod cli;
+mod crumb;
 mod e3;
 mod explore;
 mod hashorder;
 mod extract;
 mod selfcheck;
 mod pipeline;
+mod pybatch;
 mod prog;
 mod refmodel;
 mod typemodel;
@@ -22,6 +24,10 @@ fn main() {
         std::process::exit(2);
     };
     let rest = &args[1..];
+    let is_check = cmd.len() == 3 && cmd.starts_with('C');
+    if is_check {
+        crumb::arm(cmd);
+    }
     let code = match cmd.as_str() {
         "selfcheck" => {
             let (n, fails) = selfcheck::run(rest.iter().any(|a| a == "-v"));
@@ -106,5 +112,8 @@ fn main() {
             2
         }
     };
+    if is_check {
+        crumb::disarm(cmd);
+    }
     std::process::exit(code);
 }
